@@ -40,10 +40,10 @@ type depsIn struct {
 }
 
 type input struct {
-	Kind string  `json:"kind"` // "prog" | "deps"
-	Mode string  `json:"mode,omitempty"`
-	Prog *Prog   `json:"prog,omitempty"`
-	Deps *depsIn `json:"deps,omitempty"`
+	Kind string   `json:"kind"` // "prog" | "deps"
+	Mode string   `json:"mode,omitempty"`
+	Prog *Prog    `json:"prog,omitempty"`
+	Deps *depsIn  `json:"deps,omitempty"`
 	Src  *SrcProg `json:"src,omitempty"`
 }
 
